@@ -19,10 +19,16 @@
 (*               process.collect_output();                                 *)
 (*   Redirect    the application redirects a stream to a target.           *)
 (*                                                                         *)
-(* ResumeFix / CollectFix = TRUE model the code after the two repairs      *)
+(* ResumeFix / CollectFix / SepFix = TRUE model the code after the repairs *)
 (* found with this module (fixes/c19_readuntil_resume.patch,               *)
-(* fixes/c19_collect_output_resume.patch); FALSE is the code before them   *)
+(* fixes/c19_collect_output_resume.patch,                                  *)
+(* fixes/c19_readuntil_earliest_end.patch); FALSE is the code before them  *)
 (* and must violate ChunkIndependent / NothingLost.                        *)
+(*                                                                         *)
+(* How the stream is asked to split is data: the separators offered in a   *)
+(* run are drawn by TLC from every shape class of literal tuples (see      *)
+(* Shape) plus the regex forms; every one meets every stream and every     *)
+(* chunking of it in the case tables.                                      *)
 (*                                                                         *)
 (* The code is modelled as a pure state transformer on the record c, so    *)
 (* that the same operators drive the exhaustive check, the simulation and  *)
